@@ -9,10 +9,13 @@ import (
 const (
 	cronLastDayOfMonthN = CSM.NLastDayOfMonth
 	cronWeekdayN        = CSM.NWeekday
+
+	// the last year with instants representable as Unix nanoseconds
+	maxYear = 2262
 )
 
 func newCSMFromFields(prev time.Time, fields []*cronField) *CSM.CronStateMachine {
-	year := CSM.NewCommonNode(prev.Year(), 0, 999999, fields[6].values)
+	year := CSM.NewCommonNode(prev.Year(), 0, maxYear, fields[6].values)
 	month := CSM.NewCommonNode(int(prev.Month()), 1, 12, fields[4].values)
 	var day *CSM.DayNode
 	if len(fields[5].values) != 0 {
